@@ -4,7 +4,18 @@ open XsVerif.Props.C10
 #print axioms inv_call
 #print axioms inv_call_prefix
 #print axioms inv_after
-#print axioms history_neutral
-#print axioms docB_selfSufficient
+#print axioms inv_abort_inside_xsi
+#print axioms residue_grows
+#print axioms residue_frame
+#print axioms counters_call_local
+#print axioms scratch_isolated
+#print axioms history_neutral_partial
+#print axioms history_neutral_prefix
+#print axioms history_dependent_of_not_selfSufficient
+#print axioms neutral_iff_selfSufficient
+#print axioms selfSufficient_collect
+#print axioms history_neutral_ungated
 #print axioms history_counterexample
-#print axioms saturated_not_preserved
+#print axioms history_dependent_counterexample
+#print axioms record_disabled_breaks_inv
+#print axioms record_disabled_counterexample
